@@ -15,24 +15,41 @@ Definition may_move (g : ghost) (auths : list addr) (x from : addr) (id : N) : b
   && oaddr_eqb (rget (g_own g) id) (Some from)
   && ((x =? from) || oaddr_eqb (live_appr g id) (Some x) || live_oper g from x).
 
-(* judged against the reference BEFORE the call *)
+(* judged against the reference BEFORE the call (mints: [mint_scope], Run/NftCommon.v); calls other than
+   sequential / batch mints return nothing; the ledger cannot refuse to move *)
 Definition c11_legal (g : ghost) (cl : call) (o : outcome) : bool :=
   match o with
-  | Fail => true
-  | Ok _ =>
+  | Fail => match cl with Advance _ => false | _ => true end
+  | Ok r =>
       match cl with
-      | Transfer auths from _ id | Burn auths from id => may_move g auths from from id
-      | TransferFrom auths sp from _ id | BurnFrom auths sp from id => may_move g auths sp from id
+      | MintSeq _ | BatchMint _ _ => true
+      | Transfer auths from _ id | Burn auths from id => is_none r && may_move g auths from from id
+      | TransferFrom auths sp from _ id | BurnFrom auths sp from id => is_none r && may_move g auths sp from id
       | Approve auths approver _ id _ =>
-          has_auth auths approver
+          is_none r && has_auth auths approver
           && match rget (g_own g) id with
              | Some ow => (approver =? ow) || live_oper g ow approver
              | None => false
              end
-      | ApproveForAll auths ow _ _ => has_auth auths ow
-      | _ => true
+      | ApproveForAll auths ow _ _ => is_none r && has_auth auths ow
+      | _ => is_none r
       end
   end.
+
+(* Well-formedness of an observation, CHECKED: owner_of and get_approved are asked for the same strictly
+   increasing ids, which contain every id 0 .. next_id+2, every individually assigned id and the ids the call
+   names; is_approved_for_all is asked for every pair the reference holds an entry for and for the pair the
+   call names.  [g] = the reference AFTER the call. *)
+Definition c11_shape_ok (g : ghost) (cl : call) (o : outcome) (ob : obs) : bool :=
+  let ids := map fst (o_owner ob) in
+  let pairs := map fst (o_oper ob) in
+  strictly_incr ids
+  && list_eqb N.eqb (map fst (o_appr ob)) ids
+  && covers_from ids 0 (N.to_nat (g_next g + 3))
+  && forallb (fun i => memN i ids) (point_ids (g_own g))
+  && forallb (fun i => memN i ids) (call_ids cl o)
+  && forallb (fun k => existsb (peqb k) pairs) (map fst (g_oper g))
+  && match cl with ApproveForAll _ ow op _ => existsb (peqb (ow, op)) pairs | _ => true end.
 
 (* judged against the reference AFTER the call: the getters report exactly the approvals / operators
    the reference holds live.  "Only those": cleared by every move, not inherited from a previous
@@ -48,17 +65,26 @@ Definition c11_obs_ok (g : ghost) (ob : obs) : bool :=
 
 Definition c11_step_ok (g : ghost) (x : call * outcome * obs) : bool :=
   let '(cl, o, ob) := x in
-  c11_legal g cl o && c11_obs_ok (ghost_step g cl o) ob.
+  let g' := ghost_step g cl o in
+  c11_legal g cl o && c11_shape_ok g' cl o ob && c11_obs_ok g' ob.
 
-Fixpoint mon_from (g : ghost) (l : list (call * outcome * obs)) (i : N) : N :=
+(* [strict] = false: a trace that leaves the property's quantifier (a mint onto a live id: OutOfScope) is not
+   judged from that call on; [strict] = true: it is flagged there.  Illegal mints are always flagged. *)
+Fixpoint mon_from (strict : bool) (fl : flavour) (g : ghost) (l : list (call * outcome * obs)) (i : N) : N :=
   match l with
   | [] => 0
   | x :: r =>
-      if c11_step_ok g x
-      then mon_from (ghost_step g (fst (fst x)) (snd (fst x))) r (N.succ i)
-      else N.succ i
+      match mint_scope fl g (fst (fst x)) (snd (fst x)) with
+      | Illegal => N.succ i
+      | OutOfScope => if strict then N.succ i else 0
+      | InScope =>
+          if c11_step_ok g x
+          then mon_from strict fl (ghost_step g (fst (fst x)) (snd (fst x))) r (N.succ i)
+          else N.succ i
+      end
   end.
-Definition monitor (t : trace) : N := mon_from (ghost0 (t_now0 t)) (t_steps t) 0.
+Definition monitor (t : trace) : N := mon_from false (t_fl t) (ghost0 (t_now0 t)) (t_steps t) 0.
+Definition monitor_strict (t : trace) : N := mon_from true (t_fl t) (ghost0 (t_now0 t)) (t_steps t) 0.
 
 Definition check (t : trace) : verdict := (diff t, monitor t, 0).
 Definition check_all (ts : list trace) : list verdict := map check ts.
